@@ -183,6 +183,49 @@ def check_cli(ctx, texts, rname, source, tmpdir, repeat=False, inprocess=False):
         ctx.count('cli', 'files', len(order))
 
 
+# the same piece of text in documents that give it different meanings (a reference defined in one file, not or differently in
+# another; a table cell, a heading, plain inline text): one invocation over several files against the single-file runs, each of
+# which is a process of its own - so what one file leaves behind for the next (anything kept per text) shows on either side
+_T = '| [r] | x ![i][r] |\n|---|---|\n| [r][] | [t][r] |\n'
+CONTEXT_FILES = {
+    'table-def-a': '[r]: /a\n\n' + _T, 'table-no-def': _T, 'table-def-c': '[r]: /c "t"\n\n' + _T,
+    'inline-def-a': '[r]: /a\n\n# [r] h\n\n[r] and [t][r]\n\n- [r]\n', 'inline-no-def': '# [r] h\n\n[r] and [t][r]\n\n- [r]\n',
+    'inline-def-c': '[R]: </c> (t)\n\n# [r] h\n\n[r] and [t][r]\n\n- [r]\n',
+}
+CONTEXT_ORDERS = [('table-def-a', 'table-no-def'), ('table-no-def', 'table-def-a'), ('table-def-a', 'table-def-c', 'table-no-def', 'table-def-a'),
+                  ('inline-def-a', 'inline-no-def'), ('inline-no-def', 'inline-def-c', 'inline-def-a'), ('table-def-c', 'inline-no-def', 'table-no-def')]
+
+
+def check_cli_context(ctx, order, rname, tmpdir):
+    ctx.ev()
+    case = {'form': 'cli-context', 'order': list(order), 'renderer': rname}
+    for name, t in CONTEXT_FILES.items():
+        with open(os.path.join(tmpdir, name + '.md'), 'wb') as f:
+            f.write(t.encode('utf-8'))
+    try:
+        singles = {}
+        for name in sorted(set(order)):
+            rc, out, err = run_cli([name + '.md'], rname, tmpdir, 7)
+            if rc != 0 or err.strip():
+                ctx.violation('cli-fails-or-warns', 'rc=%s (single file %s)' % (rc, name), case, stderr=err.decode('utf-8', 'replace')[-1500:])
+                return
+            singles[name] = out
+        rc, out, err = run_cli([n + '.md' for n in order], rname, tmpdir, 7)
+    except subprocess.TimeoutExpired:
+        ctx.count('cli', 'watchdog')
+        return
+    if rc != 0 or err.strip():
+        ctx.violation('cli-fails-or-warns', 'rc=%s (files %s)' % (rc, ' '.join(order)), case, stderr=err.decode('utf-8', 'replace')[-1500:])
+        return
+    expected = b''.join(singles[n] for n in order)
+    if out != expected:
+        ctx.violation('output-differs', 'cli files=%d (same text, other definitions) renderer=%s' % (len(order), rname), case,
+                      expected=expected.decode('utf-8', 'replace'), observed=out.decode('utf-8', 'replace'))
+    else:
+        ctx.count('equal', 'cli several files vs single-file processes')
+        ctx.count('cli', 'invocations', 1 + len(singles))
+
+
 def plan(tier):
     if tier == 'quick':
         return {'shards': 8, 'budget_s': 60}
@@ -269,6 +312,12 @@ def run(ctx):
             if rng.random() < 0.3 and text.endswith('\n'):
                 text = text[:-1]
             check_cli(ctx, [text], rng.choice(RENDERERS), kind, tmpdir)
+        k = 0
+        for order in CONTEXT_ORDERS:
+            for rname in ('Html', 'Markdown', 'LaTeX'):
+                k += 1
+                if k % ctx.nshards == ctx.shard:
+                    check_cli_context(ctx, order, rname, tmpdir)
         # CLI, several files per invocation (expected output = concatenation)
         for k in range(sz['cli_multi'] // ctx.nshards):
             if ctx.time_left() < 5:
@@ -312,7 +361,9 @@ def replay(ctx, case):
     os.makedirs(base, exist_ok=True)
     tmpdir = tempfile.mkdtemp(prefix='c15-', dir=base)
     try:
-        if case.get('form') == 'cli':
+        if case.get('form') == 'cli-context':
+            check_cli_context(ctx, case['order'], case['renderer'], tmpdir)
+        elif case.get('form') == 'cli':
             check_cli(ctx, case['texts'], case['renderer'], 'replay', tmpdir)
         else:
             ctx.rng.random = lambda: 0.0
